@@ -359,7 +359,7 @@ func TestKF_C10StrictDir(t *testing.T) {
 	TestC10_PowerLoss(t)
 }
 
-var wPower = map[string]int{"txn": 10, "burst": 3, "asyncburst": 3, "batchrot": 4, "flush": 4, "compact": 4, "gc": 1, "churn": 1, "reopen": 1}
+var wPower = map[string]int{"txn": 10, "burst": 3, "asyncburst": 3, "batchrot": 4, "wbatch": 3, "flush": 4, "compact": 4, "gc": 1, "churn": 1, "reopen": 1}
 
 func TestC10_PowerLoss(t *testing.T) {
 	all := core.Thorough()
